@@ -9,14 +9,15 @@ EXTENDS Sec, TLC, Json
 CONSTANTS LAlgs, Layouts, EMDs,
           Forms,   \* how text strings are written in the source: "literal", "hex", "utf16"
           UPWs,    \* user password kinds: "empty", "set"
+          Writes,  \* 1: the output of the encrypt operation; 2: the same context written once more (reset, write again)
           Emit
 
 VARIABLE c
-Init == c \in [loc : Locs, alg : LAlgs, layout : Layouts, emd : EMDs, form : Forms, upw : UPWs]
+Init == c \in [loc : Locs, alg : LAlgs, layout : Layouts, emd : EMDs, form : Forms, upw : UPWs, write : Writes]
 Next == FALSE
 Spec == Init /\ [][Next]_c
 
-Case == [loc |-> c.loc, alg |-> c.alg, layout |-> c.layout, emd |-> c.emd, form |-> c.form, upw |-> c.upw, mayleak |-> Leaks(c.loc, c.alg, c.emd)]
+Case == [loc |-> c.loc, alg |-> c.alg, layout |-> c.layout, emd |-> c.emd, form |-> c.form, upw |-> c.upw, write |-> c.write, mayleak |-> Leaks(c.loc, c.alg, c.emd)]
 EmitCase == Emit => PrintT(<<"CASE", ToJson(Case)>>)
 (* the exceptions are exactly the two the property names *)
 ExceptionsExact == Leaks(c.loc, c.alg, c.emd) => c.loc \in {"sigcontents", "xmp"}
